@@ -7,7 +7,7 @@ base = json.load(open("/root/.vp/BASELINE.json"))
 with tempfile.TemporaryDirectory() as d:
     x = os.path.join(d, "j.xml")
     p = subprocess.run(["/venv/bin/python", "-m", "pytest", "-q", "-p", "no:cacheprovider",
-                        "--timeout=900", "--continue-on-collection-errors", "-n", "12",
+                        "--timeout=900", "--continue-on-collection-errors", "-n", os.environ.get("BASELINE_N", "12"),
                         f"--junitxml={x}"], cwd=repo, capture_output=True, text=True)
     passed = set()
     for tc in ET.parse(x).getroot().iter("testcase"):
